@@ -152,6 +152,14 @@ func c21Gen(rng *rand.Rand, tier string) []Case {
 				a.Adjustment = -a.Height
 				b = &coordinate.Coordinate{Vec: append([]float64{}, a.Vec...), Error: a.Error, Adjustment: -a.Height, Height: a.Height}
 				dimB = dim
+			case 4:
+				// the adjusted distance is tiny but positive (just above the guard's boundary): same position,
+				// the adjustments cancel all but 2^-k seconds of the heights
+				eps := math.Ldexp(1, -(10 + rng.Intn(40)))
+				h := float64(1+rng.Intn(50)) / 1024
+				a.Height, a.Adjustment = h, -h+eps/2
+				b = &coordinate.Coordinate{Vec: append([]float64{}, a.Vec...), Error: a.Error, Adjustment: -h + eps/2, Height: h}
+				dimB = dim
 			}
 			if cls == 0 || cls == 1 {
 				nt++
